@@ -11,6 +11,7 @@ import (
 	"sort"
 	"strings"
 	"sync"
+	"sync/atomic"
 	"testing"
 	"time"
 
@@ -79,6 +80,15 @@ type fCloud struct {
 	busy    map[int]int // addresses named by an unassign call in flight (never re-issued meanwhile)
 	jitter  func() time.Duration
 	faults  int
+	armed   func() // run once (in its own goroutine) right after the next successful create / assign call ended
+}
+
+// fire runs the armed function after a cloud call ended (called with c.mu held, after the end event was emitted).
+func (c *fCloud) fire() {
+	if f := c.armed; f != nil {
+		c.armed = nil
+		go f()
+	}
 }
 
 func (c *fCloud) next(kind string) string {
@@ -187,6 +197,7 @@ func (c *fCloud) CreateNetworkInterface(n4, n6 int, eniType string) (*daemon.ENI
 	if failAfter {
 		return eni, nil, nil, codeErr(strings.TrimPrefix(strings.TrimPrefix(o, "fa"), ":"))
 	}
+	c.fire()
 	return eni, r4, r6, nil
 }
 
@@ -242,6 +253,9 @@ func (c *fCloud) assign(id string, count int, fam int) ([]netip.Addr, error) {
 		got = append(got, a)
 	}
 	c.w.Emit(vt.M{"ev": "assign_end", "e": e, "fam": fam, "addrs": got, "err": err != nil})
+	if err == nil {
+		c.fire()
+	}
 	return r, err
 }
 
@@ -296,9 +310,17 @@ func (c *fCloud) DeleteNetworkInterface(id string) error {
 	e := eniNum(id)
 	c.mu.Lock()
 	o := c.next("delete")
+	slow := o == "slow" // a healthy but slow call
+	if slow {
+		o = "ok"
+		c.faults--
+	}
 	c.w.Emit(vt.M{"ev": "delete_begin", "e": e, "plan": o})
 	c.mu.Unlock()
 	c.pause()
+	if slow {
+		time.Sleep(150 * time.Millisecond)
+	}
 	c.mu.Lock()
 	defer c.mu.Unlock()
 	effect := !strings.HasPrefix(o, "fb") && c.enis[e] != nil
@@ -367,6 +389,23 @@ type csLocker struct {
 	w     *vt.Writer
 	last  string
 	first bool
+	slow  *int64 // microseconds a queued request's worker (allocWorker) is held up before it gets the lock: a legal schedule
+}
+
+// calledFromAllocWorker reports whether the current goroutine is a request's allocWorker (about to take the pool lock).
+func calledFromAllocWorker() bool {
+	pcs := make([]uintptr, 12)
+	n := runtime.Callers(3, pcs)
+	fr := runtime.CallersFrames(pcs[:n])
+	for {
+		f, more := fr.Next()
+		if strings.HasSuffix(f.Function, "(*Local).allocWorker") {
+			return true
+		}
+		if !more {
+			return false
+		}
+	}
 }
 
 func liveLen(a AllocatingRequests) int {
@@ -381,7 +420,14 @@ func liveLen(a AllocatingRequests) int {
 	return n
 }
 
-func (c *csLocker) Lock() { c.mu.Lock() }
+func (c *csLocker) Lock() {
+	if c.slow != nil {
+		if us := atomic.LoadInt64(c.slow); us > 0 && calledFromAllocWorker() {
+			time.Sleep(time.Duration(us) * time.Microsecond)
+		}
+	}
+	c.mu.Lock()
+}
 func (c *csLocker) Unlock() {
 	l := c.l
 	ents := []vt.M{}
@@ -426,6 +472,8 @@ type poolCfg struct {
 	v4, v6                              bool
 	pre                                 int  // interfaces attached before the daemon starts
 	trunk                               bool // the first pre-attached interface is the trunk
+	special                             string // "", "trunk" or "erdma": type of the first pre-attached interface
+	noPre6                              bool   // pre-attached interfaces carry no IPv6 address (IPv6 enabled on a node with IPv4-only interfaces)
 	policy                              string
 }
 
@@ -439,6 +487,7 @@ type poolSys struct {
 	ctx    context.Context
 	stop   context.CancelFunc
 	wg     sync.WaitGroup
+	slow   int64
 }
 
 func podName(p int) string { return fmt.Sprintf("ns/pod-%d", p) }
@@ -451,14 +500,14 @@ func newPoolSys(t *testing.T, w *vt.Writer, cfg poolCfg, scen int, podRes []daem
 			cloud.nextEni++
 			e := cloud.nextEni
 			fe := &fEni{typ: "secondary", v4: map[int]bool{}, v6: map[int]bool{}}
-			if i == 0 && cfg.trunk {
-				fe.typ = "trunk"
+			if i == 0 && cfg.special != "" {
+				fe.typ = cfg.special
 			}
 			cloud.enis[e] = fe
 			a := cloud.freeAddr(4)
 			fe.v4[a] = true
 			fe.primary = a
-			if cfg.v6 {
+			if cfg.v6 && !cfg.noPre6 {
 				fe.v6[cloud.freeAddr(6)] = true
 			}
 		}
@@ -485,10 +534,14 @@ func newPoolSys(t *testing.T, w *vt.Writer, cfg poolCfg, scen int, podRes []daem
 		}
 		l.rateLimitEni, l.rateLimitv4, l.rateLimitv6 = rate.NewLimiter(1000, 1000), rate.NewLimiter(1000, 1000), rate.NewLimiter(1000, 1000)
 		if os.Getenv("VERIF_CS") != "0" {
-			l.cond = sync.NewCond(&csLocker{l: l, slot: i + 1, w: w, first: true})
+			l.cond = sync.NewCond(&csLocker{l: l, slot: i + 1, w: w, first: true, slow: &s.slow})
 		}
 		s.locals = append(s.locals, l)
-		nis = append(nis, l)
+		if l.eniType == "trunk" && l.eni != nil {
+			nis = append(nis, NewTrunk(nil, l)) // as daemon/builder.go does: the trunk interface is wrapped (local + remote part)
+		} else {
+			nis = append(nis, l)
+		}
 	}
 	s.mgr = NewManager(cfg.minIdle, cfg.maxIdle, cfg.slots*cfg.cap, 0, nis, daemon.EniSelectionPolicy(cfg.policy), nil)
 	s.ctx, s.stop = context.WithCancel(context.Background())
@@ -580,6 +633,8 @@ type driver struct {
 	maxReq   int
 	syncBusy bool
 	syncDone chan struct{}
+	rdma     map[int]bool // pods asking for an RDMA address (a pod keeps its kind)
+	syncMu   sync.Mutex   // one balancer run at a time (the daemon has one periodic balancer goroutine)
 }
 
 func (d *driver) collect(block bool, timeout time.Duration) bool {
@@ -664,6 +719,12 @@ func (d *driver) step(st vt.M) {
 		d.open[r] = cancel
 		d.openPod[r] = p
 		req := NewLocalIPRequest()
+		if vt.Bool(st["rdma"]) && d.holds[p] == nil {
+			d.rdma[p] = true
+		}
+		if d.rdma[p] {
+			req.LocalIPType = LocalIPTypeERDMA
+		}
 		if h := d.holds[p]; h != nil {
 			// what the daemon does for a pod with a stored record (daemon.setRequest): pin the interface and addresses
 			req.NetworkInterfaceID = eniID(h.e)
@@ -783,10 +844,37 @@ func (d *driver) step(st vt.M) {
 			defer d.bg.Done()
 			ctx, cancel := context.WithTimeout(d.s.ctx, 8*time.Second)
 			defer cancel()
+			d.syncMu.Lock()
 			d.s.mgr.syncPool(ctx)
+			d.syncMu.Unlock()
 			d.w.Emit(vt.M{"ev": "syncpool_ret"})
 			close(done)
 		}()
+	case "slowwaiter":
+		// from now on a queued request's worker is held up that long whenever it is about to take the pool lock
+		atomic.StoreInt64(&d.s.slow, int64(vt.Int(st["us"])))
+	case "arm_sync":
+		// the balancer runs us microseconds after the next successful create / assign call of the cloud ended, i.e. (with
+		// slow waiters) between the factory worker storing the new addresses and the waiting request taking one
+		us := vt.Int(st["us"])
+		c := d.s.cloud
+		c.mu.Lock()
+		if c.armed != nil {
+			d.bg.Done() // replaced before it fired
+		}
+		c.armed = func() {
+			defer d.bg.Done()
+			time.Sleep(time.Duration(us) * time.Microsecond)
+			ctx, cancel := context.WithTimeout(d.s.ctx, 8*time.Second)
+			defer cancel()
+			d.syncMu.Lock()
+			d.w.Emit(vt.M{"ev": "syncpool_call"})
+			d.s.mgr.syncPool(ctx)
+			d.w.Emit(vt.M{"ev": "syncpool_ret"})
+			d.syncMu.Unlock()
+		}
+		d.bg.Add(1)
+		c.mu.Unlock()
 	case "sync":
 		k := vt.Int(st["slot"])
 		if k >= 1 && k <= len(d.s.locals) {
@@ -861,7 +949,12 @@ func (d *driver) drain() {
 	c.mu.Lock()
 	c.plan = nil
 	c.kplan = map[string][]string{}
+	if c.armed != nil {
+		c.armed = nil
+		d.bg.Done()
+	}
 	c.mu.Unlock()
+	atomic.StoreInt64(&d.s.slow, 0)
 	d.s.clearInhibit()
 	// open requests: let them finish (healthy cloud), cancel what does not finish
 	deadline := time.Now().Add(6 * time.Second)
@@ -995,9 +1088,17 @@ func readPoolScenarios(t *testing.T) [][]vt.M {
 }
 
 func cfgOf(m vt.M) poolCfg {
-	return poolCfg{cap: vt.Int(m["cap"]), batch: vt.Int(m["batch"]), slots: vt.Int(m["slots"]), minIdle: vt.Int(m["minIdle"]),
+	c := poolCfg{cap: vt.Int(m["cap"]), batch: vt.Int(m["batch"]), slots: vt.Int(m["slots"]), minIdle: vt.Int(m["minIdle"]),
 		maxIdle: vt.Int(m["maxIdle"]), v4: vt.Bool(m["v4"]), v6: vt.Bool(m["v6"]), pre: vt.Int(m["pre"]), trunk: vt.Bool(m["trunk"]),
 		policy: vt.Str(m["policy"])}
+	if s, ok := m["special"].(string); ok {
+		c.special = s
+	}
+	if c.trunk && c.special == "" {
+		c.special = "trunk"
+	}
+	c.noPre6, _ = m["noPre6"].(bool)
+	return c
 }
 
 // TestVerifPool runs scenarios (from TLC simulation via VERIF_SCEN, plus seeded random ones) against the real pool.
@@ -1014,7 +1115,7 @@ func TestVerifPool(t *testing.T) {
 	outcomes := []string{"ok", "ok", "ok", "fb", "fb:enilimit", "fb:vswfull", "fb:ipquota", "fa", "partial:1", "partial:0", "fa:vswfull"}
 	for k := 0; k < nrand; k++ {
 		cfg := vt.M{"cap": 2 + rng.Intn(2), "batch": 1 + rng.Intn(3), "slots": 2 + rng.Intn(2), "v4": true, "v6": rng.Intn(3) == 0,
-			"pre": rng.Intn(2), "trunk": rng.Intn(3) == 0, "policy": []string{"most_ips", "least_ips"}[rng.Intn(2)]}
+			"pre": rng.Intn(2), "trunk": rng.Intn(3) == 0, "special": []string{"", "", "trunk", "erdma"}[rng.Intn(4)], "policy": []string{"most_ips", "least_ips"}[rng.Intn(2)]}
 		mn := rng.Intn(3)
 		cfg["minIdle"], cfg["maxIdle"] = mn, mn+rng.Intn(3)
 		sc := []vt.M{{"a": "conf", "conf": cfg}}
@@ -1052,6 +1153,56 @@ func TestVerifPool(t *testing.T) {
 			default:
 				sc = append(sc, vt.M{"a": "settle"})
 			}
+		}
+		if k%8 == 2 || k%8 == 7 {
+			// the balancer lands between the factory worker storing fresh addresses (the waiting request's job is already
+			// popped) and the waiting request taking one: the interface is idle by its address table but not free
+			sc = sc[:1] // directed scenario: no random prefix, no other tail (the request budget of a scenario is limited)
+			c := vt.Map(sc[0]["conf"])
+			c["pre"], c["maxIdle"], c["minIdle"], c["batch"] = 0, 0, 0, 1+(k/8)%2
+			c["v6"] = k%8 == 7
+			sc = append(sc, vt.M{"a": "uninhibit"}, vt.M{"a": "settle"})
+			for p := 1; p <= 4; p++ {
+				sc = append(sc, vt.M{"a": "release", "p": p})
+			}
+			sc = append(sc, vt.M{"a": "syncpool"}, vt.M{"a": "wait", "ms": 400}, vt.M{"a": "syncpool"}, vt.M{"a": "wait", "ms": 400}, vt.M{"a": "settle"},
+				vt.M{"a": "plan", "kind": "delete", "outcomes": []any{"slow"}},
+				vt.M{"a": "slowwaiter", "us": 40000}, vt.M{"a": "arm_sync", "us": 4000}, vt.M{"a": "alloc", "p": 1}, vt.M{"a": "wait", "ms": 700},
+				vt.M{"a": "alloc", "p": 2}, vt.M{"a": "wait", "ms": 500}, vt.M{"a": "arm_sync", "us": 4000}, vt.M{"a": "alloc", "p": 3}, vt.M{"a": "alloc", "p": 4},
+				vt.M{"a": "wait", "ms": 700}, vt.M{"a": "slowwaiter", "us": 0}, vt.M{"a": "settle"})
+			scens = append(scens, sc)
+			continue
+		}
+		if k%8 == 5 {
+			// dual stack: shrinking leaves an interface with idle IPv4 but no idle IPv6 and no pod; the next request lands there
+			// (the other interface is full) and waits for an IPv6 address only; a pod leaves elsewhere and the balancer runs
+			sc = sc[:1]
+			c := vt.Map(sc[0]["conf"])
+			c["v6"], c["cap"], c["slots"], c["batch"], c["pre"], c["maxIdle"], c["minIdle"], c["policy"] = true, 2, 2, 2, 0, 1, 0, "most_ips"
+			c["special"], c["trunk"] = "", false
+			if (k/8)%2 == 0 {
+				// the shortest way into that state: the pre-attached interface has an idle IPv4 (its primary) and no IPv6 at all
+				// (IPv6 enabled on a node with an IPv4-only interface); one request waits for an IPv6 address, the balancer runs
+				c["pre"], c["noPre6"], c["maxIdle"] = 1, true, 0
+				for j := 0; j < 2; j++ {
+					sc = append(sc, vt.M{"a": "uninhibit"}, vt.M{"a": "settle"}, vt.M{"a": "alloc", "p": 1 + j}, vt.M{"a": "wait", "ms": 20},
+						vt.M{"a": "syncpool"}, vt.M{"a": "wait", "ms": 600}, vt.M{"a": "settle"}, vt.M{"a": "release", "p": 1 + j}, vt.M{"a": "settle"})
+				}
+				scens = append(scens, sc)
+				continue
+			}
+			last := []int{2, 4}[(k/16)%2]
+			sc = append(sc, vt.M{"a": "uninhibit"}, vt.M{"a": "settle"})
+			for p := 1; p <= 4; p++ {
+				sc = append(sc, vt.M{"a": "release", "p": p})
+			}
+			sc = append(sc, vt.M{"a": "syncpool"}, vt.M{"a": "wait", "ms": 400}, vt.M{"a": "syncpool"}, vt.M{"a": "wait", "ms": 400}, vt.M{"a": "settle"},
+				vt.M{"a": "alloc", "p": 1}, vt.M{"a": "alloc", "p": 2}, vt.M{"a": "settle"}, vt.M{"a": "alloc", "p": 3}, vt.M{"a": "alloc", "p": 4}, vt.M{"a": "settle"},
+				vt.M{"a": "release", "p": 1}, vt.M{"a": "release", "p": 3}, vt.M{"a": "syncpool"}, vt.M{"a": "wait", "ms": 500}, vt.M{"a": "settle"},
+				vt.M{"a": "alloc", "p": 1}, vt.M{"a": "settle"}, vt.M{"a": "release", "p": last}, vt.M{"a": "syncpool"}, vt.M{"a": "wait", "ms": 500}, vt.M{"a": "settle"},
+				vt.M{"a": "alloc", "p": 3}, vt.M{"a": "wait", "ms": 30}, vt.M{"a": "release", "p": 1}, vt.M{"a": "syncpool"}, vt.M{"a": "wait", "ms": 600}, vt.M{"a": "settle"})
+			scens = append(scens, sc)
+			continue
 		}
 		if k%3 == 0 {
 			// partial shrink: some pods leave, the balancer trims while others still hold addresses on the same interfaces
@@ -1113,6 +1264,20 @@ func TestVerifPool(t *testing.T) {
 					vt.M{"a": "syncpool"}, vt.M{"a": "wait", "ms": 30 + rng.Intn(60)}, vt.M{"a": "syncpool"}, vt.M{"a": "wait", "ms": 400})
 			}
 		}
+		if k%4 == 1 {
+			// the trunk / RDMA interface: pods come and go (RDMA pods too), then the balancer must shrink to zero idle addresses
+			// without ever giving that interface (or its primary address) up
+			c := vt.Map(sc[0]["conf"])
+			c["pre"], c["maxIdle"], c["minIdle"], c["trunk"] = 2, 0, 0, false
+			c["special"] = []string{"trunk", "erdma"}[(k/4)%2]
+			sc = append(sc, vt.M{"a": "uninhibit"}, vt.M{"a": "settle"}, vt.M{"a": "alloc", "p": 1}, vt.M{"a": "alloc", "p": 2}, vt.M{"a": "alloc", "p": 3, "rdma": true},
+				vt.M{"a": "alloc", "p": 4, "rdma": true}, vt.M{"a": "settle"}, vt.M{"a": "syncpool"}, vt.M{"a": "wait", "ms": 20})
+			for p := 1; p <= 4; p++ {
+				sc = append(sc, vt.M{"a": "release", "p": p})
+			}
+			sc = append(sc, vt.M{"a": "syncpool"}, vt.M{"a": "wait", "ms": 350}, vt.M{"a": "syncpool"}, vt.M{"a": "alloc", "p": 3, "rdma": true}, vt.M{"a": "settle"},
+				vt.M{"a": "release", "p": 3}, vt.M{"a": "syncpool"}, vt.M{"a": "wait", "ms": 350}, vt.M{"a": "syncpool"}, vt.M{"a": "settle"})
+		}
 		if k%3 == 2 {
 			// shrink-heavy tail: everything is released and the balancer runs, so idle addresses / empty interfaces get disposed
 			vt.Map(sc[0]["conf"])["maxIdle"] = vt.Int(vt.Map(sc[0]["conf"])["minIdle"])
@@ -1141,7 +1306,7 @@ func TestVerifPool(t *testing.T) {
 			return time.Duration(jr.Intn(3)) * 10 * time.Millisecond
 		}
 		d := &driver{s: sys, w: w, open: map[int]context.CancelFunc{}, openPod: map[int]int{}, results: make(chan allocRes, 64),
-			holds: map[int]*held{}, last: map[int]*held{}, maxReq: vt.EnvInt("VERIF_MAXREQ", 36)}
+			holds: map[int]*held{}, last: map[int]*held{}, rdma: map[int]bool{}, maxReq: vt.EnvInt("VERIF_MAXREQ", 36)}
 		dbg := os.Getenv("VERIF_DEBUG") != ""
 		for i, st := range sc[1:] {
 			d.step(st)
